@@ -64,6 +64,20 @@ def build(entry, pool_live):
         return SP.render(entry['spec'])
     if k == 'nf':
         return N.denorm(entry['val'])
+    if k == 'subann':
+        # a sub-peptide of a pool annotation as a PARSED object of its own: the true slice [i, j), or its positional
+        # isomer (one residue modification moved to another residue inside it) - what a search is asked to find
+        a = build_ann({'kind': 'ann', 'via': 'parse', 'spec': entry['spec']})
+        s = a.slice(entry['i'], entry['j'], inplace=False)
+        if entry.get('move'):
+            p, q = entry['move']
+            mods = s.pop_internal_mod(p)
+            if mods:
+                s.add_internal_mod(q, mods, False)
+        out = _pt.parse(s.serialize())
+        if not isinstance(out, _pt.ProFormaAnnotation):
+            raise HarnessError('sub-peptide did not parse to one annotation')
+        return out
     if k == 'frags':
         a = build_ann({'kind': 'ann', 'via': 'parse', 'spec': entry['spec']})
         return _pt.fragment(a, entry['ion_types'], entry['charges'], isotopes=entry.get('isotopes', 0))
